@@ -1320,7 +1320,8 @@ def run_apalache(name, module, args, expect_error=False, timeout=900):
 
 IND_RUNS = {
     # module: (inductive invariant, contract Next, [(deviation Next, what it is)], [(probe invariant, meaning)])
-    'SqInd': ('Safety', 'Next', [('NextOffByOne', 'locked fullness check off by one (the code before fix 29a478a)')],
+    'SqInd': ('Safety', 'Next', [('NextOffByOne', 'locked fullness check off by one (the code before fix 29a478a)'),
+                                 ('NextStaleTail', 'locked fullness check against the tail loaded before the lock was taken')],
               ['NoWriter']),
     'CqInd': ('IndInv', 'Next', [('NextNonModular', 'non-modular head/tail comparison (the code before fix e64d60c)')],
               ['NoRead']),
